@@ -60,7 +60,7 @@ func allAccounts(w *world.World) map[string]*world.Account {
 func makeWarm(seed int64, blocks int, fr int64, scripts []string) (*warm, error) {
 	params := world.Params{Frankenstein: fr, NumCandidates: 3, NumEthUsers: 3, TopValidators: 5, ChainID: fmt.Sprintf("OneLedger-warm-%d-%d", seed, blocks)}
 	wm := &warm{seed: seed, empty: map[int]hist.State{}}
-	cfg := drive.Cfg{Tag: "warm", Seed: seed, Blocks: blocks, Params: params, Scripts: scripts, Scout: true, KeepAll: true}
+	cfg := drive.Cfg{Tag: "warm", Seed: seed, Blocks: blocks, Params: params, Scripts: scripts, Scout: true, KeepAll: true, Honest: true}
 	var plannedNext []hist.TxSpec
 	// the planning of block `blocks+1` happens in FilterPlan of an extra step that is not executed:
 	cfg.Blocks = blocks + 1
